@@ -37,6 +37,18 @@ type BlockRepository struct {
 	lastHeaders []wire.BlockHeader     // Hashes in the latest key/file
 	heights     map[bitcoin.Hash32]int // Lookup of block height by hash
 	mutex       sync.Mutex
+	chainLock   sync.Mutex // held across multi-step changes of the chain (see LockChain)
+}
+
+// LockChain serialises the multi-step changes of the chain against each other: a block that is added
+// after its parent was checked against the tip, and a reorg that removes blocks and their txs. Without
+// it a reorg between the check and the add leaves a block on top of a block that is not its parent.
+func (repo *BlockRepository) LockChain() {
+	repo.chainLock.Lock()
+}
+
+func (repo *BlockRepository) UnlockChain() {
+	repo.chainLock.Unlock()
 }
 
 // NewBlockRepository returns a new BlockRepository.
